@@ -11,6 +11,7 @@ ap.add_argument("--tests", default="")
 ap.add_argument("--demo-cmd", default=None)
 ap.add_argument("--skip-demo", action="store_true")
 ap.add_argument("--tier", default="quick")
+ap.add_argument("--from-seeded", action="store_true", help="re-run our checks against the patch kept under /verif/seeded (no worktree needed)")
 ap.add_argument("--prebuild", default=None, help="command run in the worktree after applying the patch (and again after reverting it), e.g. to rebuild pavexc")
 ap.add_argument("--also", default="", help="other properties whose checks should be run against the mutant too (comma separated)")
 a = ap.parse_args()
@@ -25,14 +26,19 @@ def sh(cmd, cwd=None, timeout=3600, env=env):
     return p.returncode, p.stdout.decode("utf-8", "replace")
 
 res = {"confirmed_by_lead": {}}
-assert sh("git -C %s status --porcelain --untracked-files=no" % wt)[1].strip() == "", "worktree not clean"
+if a.from_seeded:
+    a.skip_demo = True
+    patch = os.path.join(dst, "patch.diff")
+    src = dst
+assert a.from_seeded or sh("git -C %s status --porcelain --untracked-files=no" % wt)[1].strip() == "", "worktree not clean"
 demo_dir = os.path.join(src, "demo")
 demo_cmd = a.demo_cmd or "cargo run --offline -q"
 if not a.skip_demo:
     rc0, out0 = sh(demo_cmd, cwd=demo_dir)
     res["confirmed_by_lead"]["demo_on_clean_tree"] = {"rc": rc0, "tail": out0[-600:]}
-rc, out = sh("git -C %s apply %s" % (wt, patch))
-assert rc == 0, "patch does not apply to worktree: " + out
+if not a.from_seeded:
+    rc, out = sh("git -C %s apply %s" % (wt, patch))
+    assert rc == 0, "patch does not apply to worktree: " + out
 try:
     if a.prebuild:
         rcb, outb = sh(a.prebuild, cwd=wt)
@@ -44,7 +50,8 @@ try:
         rct, outt = sh("cargo test --offline --no-fail-fast %s 2>&1 | grep -E '^test result|FAILED|failed' | head -30" % a.tests, cwd=wt)
         res["confirmed_by_lead"]["tests_with_patch"] = {"cmd": "cargo test --offline --no-fail-fast " + a.tests, "summary": outt[-1500:]}
 finally:
-    sh("git -C %s checkout -- ." % wt)
+    if not a.from_seeded:
+        sh("git -C %s checkout -- ." % wt)
     if a.prebuild:
         sh(a.prebuild, cwd=wt)
 # --- our checks against the mutant, in /repo
@@ -70,8 +77,9 @@ finally:
 res["our_checks_against_mutant"] = checks
 res["caught_by"] = [p for p, c in checks.items() if c["exit"] == 1 and c["violations"] > 0]
 os.makedirs(dst, exist_ok=True)
-shutil.copy(patch, os.path.join(dst, "patch.diff"))
-if os.path.isdir(demo_dir):
+if not a.from_seeded:
+    shutil.copy(patch, os.path.join(dst, "patch.diff"))
+if os.path.isdir(demo_dir) and not a.from_seeded:
     shutil.rmtree(os.path.join(dst, "demo"), ignore_errors=True)
     shutil.copytree(demo_dir, os.path.join(dst, "demo"), ignore=shutil.ignore_patterns("target", "Cargo.lock"))
 meta = {}
@@ -79,6 +87,9 @@ try:
     meta = json.load(open(os.path.join(src, "meta.json")))
 except Exception:
     pass
+if a.from_seeded and meta.get("our_checks_against_mutant"):
+    merged = dict(meta["our_checks_against_mutant"]); merged.update(checks); res["our_checks_against_mutant"] = merged
+    res["caught_by"] = [p for p, c in merged.items() if c["exit"] == 1 and c["violations"] > 0]
 prev = {}
 try:
     prev = json.load(open(os.path.join(dst, "meta.json")))
